@@ -17,7 +17,7 @@ from ..recipes import ref as R
 
 LEVEL = "exploration"
 BUDGET_S = {"quick": 75, "thorough": 1500}
-N_RANDOM = {"quick": 300, "thorough": 9000}  # per shard
+N_RANDOM = {"quick": 1500, "thorough": 40000}  # per shard
 RTOL = 1e-7
 
 
